@@ -34,6 +34,7 @@ RULES = [
     Rule('C03.F2', 'every callable handed to the wrapper is a single MPFR operation (ternary describes the whole value)', E.f2_single_operation('C03'), 35, 'F'),
     Rule('C03.S3', 'local MPFR wrappers compute the operation they are named after (neg, abs, pow, lgamma = first component of gmp.lgamma)', E.s3_wrapper_primitives, 4, 'S,T'),
     Rule('C03.M1', 'a remembered engine result is keyed by every input it was computed from', memo_keys_rule(('fpy2/number/engine/', 'fpy2/number/gmputils.py', 'fpy2/ops.py'), 'operands, precision and digit position'), 1, 'M'),
+    Rule('C03.F4', 'MPFR values are built and MPFR operations run only under a context the library sets (operands keep their exponent)', E.g2_mpfr_context, 20, 'F'),
     Rule('C03.F3', 'round_params widens the engine precision by the stochastic bits in every family', E.f3_round_params, 10, 'S'),
 ]
 
@@ -43,6 +44,11 @@ OPS, GMP, GU = E.OPS, E.GMP, E.GMPUTILS
 CTX = 'fpy2/number/context/'
 
 MUTANTS = [
+    Mutant('operands-built-under-the-ambient-context', GU, "    with gmp.context(\n        emin=MPFR_EMIN,\n        emax=MPFR_EMAX,\n        trap_underflow=False,\n        trap_overflow=False,\n        trap_inexact=False,\n        trap_divzero=False,\n    ):\n        r = gmp.mpfr(fmt, precision=x.p, base=16)",
+           "    if True:\n        r = gmp.mpfr(fmt, precision=x.p, base=16)", 'C03.F4', 'finding F57 before its repair'),
+    Mutant('operand-range-left-to-the-caller', GU, "    with gmp.context(\n        emin=MPFR_EMIN,\n        emax=MPFR_EMAX,\n        trap_underflow=False,\n        trap_overflow=False,\n        trap_inexact=False,\n        trap_divzero=False,\n    ):\n        r = gmp.mpfr(fmt",
+           "    with gmp.context(\n        trap_underflow=False,\n        trap_overflow=False,\n        trap_inexact=False,\n        trap_divzero=False,\n    ):\n        r = gmp.mpfr(fmt", 'C03.F4'),
+    Mutant('lgamma-computed-outside-the-wrapper', GMP, "        return _mpfr_eval(_gmp_lgamma, x, prec=prec, n=n)", "        return mpfr_to_float(gmp.lgamma(float_to_mpfr(x))[0])", 'C03.F4'),
     Mutant('constant-remembered-by-precision', GMP, "    try:\n        fn = _constant_exprs[x]\n        return mpfr_call(fn, (), prec=prec, n=n)\n    except KeyError as e:\n        raise ValueError(f'unknown constant {e.args[0]!r}') from None\n",
            "    try:\n        fn = _constant_exprs[x]\n        if (x, prec) not in _constants_done:\n            _constants_done[(x, prec)] = mpfr_call(fn, (), prec=prec, n=n)\n        return _constants_done[(x, prec)]\n"
            "    except KeyError as e:\n        raise ValueError(f'unknown constant {e.args[0]!r}') from None\n\n\n_constants_done: dict = {}\n", 'C03.M1',
